@@ -47,5 +47,90 @@ theorem reachable_genesis_roundtrip (hc : (toCodec bech).Lawful) (ops : List (In
     (admittedAt_of_keys toOwner .owner 0 _ hinv.owners) (admittedAt_of_keys toTopic .topic 1 _ hinv.topics)
     (admittedAt_of_keys toWriter .writer 2 _ hinv.writers) (admittedAt_of_keys toRecord .record 3 _ hinv.records)
 
+/-! ## the imported chain's own export is identical -/
+
+theorem map_inj_of_injective {α β : Type} (g : α → β) (hg : ∀ a b, g a = g b → a = b) :
+    ∀ (l1 l2 : List α), l1.map g = l2.map g → l1 = l2
+  | [], [], _ => rfl
+  | [], _ :: _, h => by simp at h
+  | _ :: _, [], h => by simp at h
+  | a :: l1, b :: l2, h => by
+    simp only [List.map_cons, List.cons.injEq] at h
+    rw [hg a b h.1, map_inj_of_injective g hg l1 l2 h.2]
+
+/-- two worlds whose tables under a prefix stand for the same model table (through an injective conversion) export the
+same entries of that table -/
+theorem expList_congr {G V : Type} [Inhabited G] [Go.Proto G] (conv : G → V) (hc : ∀ a b, conv a = conv b → a = b)
+    (kind : CompKey.Kind) (pfx : UInt8) (w w' : World)
+    (h : table conv (w'.store "aol") [pfx] = table conv (w.store "aol") [pfx]) :
+    expList bech G kind pfx w' = expList bech G kind pfx w := by
+  rw [table_eq, table_eq] at h
+  have hl : ((w'.store "aol").prefixView [pfx]).map (fun e => (e.1, ((Go.Proto.unmarshal e.2 : Option G).getD default))) =
+      ((w.store "aol").prefixView [pfx]).map (fun e => (e.1, ((Go.Proto.unmarshal e.2 : Option G).getD default))) := by
+    apply map_inj_of_injective (fun (p : Bytes × G) => (p.1, conv p.2))
+    · intro a b hab
+      obtain ⟨h1, h2⟩ := Prod.mk.inj hab
+      exact Prod.ext h1 (hc _ _ h2)
+    · simpa [List.map_map, Function.comp_def] using h
+  unfold expList
+  have := congrArg (List.map (fun (p : Bytes × G) => (CompKey.encodeToString (toCodec bech) kind (compsOf kind p.1), p.2))) hl
+  simpa [List.map_map, Function.comp_def] using this
+
+theorem toOwner_inj : ∀ a b : aoltypes.Owner, toOwner a = toOwner b → a = b := by
+  intro a b h; cases a; cases b; simp only [toOwner, Aol.Owner.mk.injEq] at h; simp [h]
+theorem toTopic_inj : ∀ a b : aoltypes.Topic, toTopic a = toTopic b → a = b := by
+  intro a b h; cases a; cases b; simp only [toTopic, Aol.Topic.mk.injEq] at h; simp [h]
+theorem toWriter_inj : ∀ a b : aoltypes.Writer, toWriter a = toWriter b → a = b := by
+  intro a b h; cases a; cases b; simp only [toWriter, Aol.Writer.mk.injEq] at h; simp [h]
+theorem toRecord_inj : ∀ a b : aoltypes.Record, toRecord a = toRecord b → a = b := by
+  intro a b h; cases a; cases b; simp only [toRecord, Aol.Record.mk.injEq] at h; simp [h]
+
+/-- the genesis state `ExportGenesis` returns on `w` -/
+def genOf (w : World) : aoltypes.GenesisState :=
+  { Owners := ent (expList bech aoltypes.Owner .owner 0 w), Topics := ent (expList bech aoltypes.Topic .topic 1 w),
+    Writers := ent (expList bech aoltypes.Writer .writer 2 w), Records := ent (expList bech aoltypes.Record .record 3 w) }
+
+/-- **C08 for x/aol, complete**: export, import into an empty store (maps in any order), the same state — and the imported
+world's own export is the genesis state it was started from. -/
+theorem genesis_roundtrip_reexport (hc : (toCodec bech).Lawful) (w : World) (hwf : WF w)
+    (a0 : AdmittedAt .owner 0 w) (a1 : AdmittedAt .topic 1 w) (a2 : AdmittedAt .writer 2 w) (a3 : AdmittedAt .record 3 w) :
+    ∃ g w', aol.ExportGenesis bech w = P.ok (some g, w) ∧ aol.InitGenesis bech g ({} : World) = P.ok w' ∧
+      WF w' ∧ abs w' = abs w ∧ aol.ExportGenesis bech w' = P.ok (some g, w') := by
+  obtain ⟨g, w', he, hi, hwf', habs⟩ := genesis_roundtrip bech hc w hwf a0 a1 a2 a3
+  refine ⟨g, w', he, hi, hwf', habs, ?_⟩
+  rw [exportGenesis_ent bech hc w hwf a0 a1 a2 a3] at he
+  have hg : g = genOf bech w := by
+    cases he; rfl
+  have ho : table toOwner (w'.store "aol") [0] = table toOwner (w.store "aol") [0] := congrArg Aol.State.owners habs
+  have ht : table toTopic (w'.store "aol") [1] = table toTopic (w.store "aol") [1] := congrArg Aol.State.topics habs
+  have hw : table toWriter (w'.store "aol") [2] = table toWriter (w.store "aol") [2] := congrArg Aol.State.writers habs
+  have hr : table toRecord (w'.store "aol") [3] = table toRecord (w.store "aol") [3] := congrArg Aol.State.records habs
+  have k0 := admittedAt_of_keys toOwner .owner 0 w' (by rw [ho]; exact keysAdmitted_abs toOwner .owner 0 w a0)
+  have k1 := admittedAt_of_keys toTopic .topic 1 w' (by rw [ht]; exact keysAdmitted_abs toTopic .topic 1 w a1)
+  have k2 := admittedAt_of_keys toWriter .writer 2 w' (by rw [hw]; exact keysAdmitted_abs toWriter .writer 2 w a2)
+  have k3 := admittedAt_of_keys toRecord .record 3 w' (by rw [hr]; exact keysAdmitted_abs toRecord .record 3 w a3)
+  rw [exportGenesis_ent bech hc w' hwf' k0 k1 k2 k3, hg]
+  unfold genOf
+  rw [expList_congr bech toOwner toOwner_inj .owner 0 w w' ho, expList_congr bech toTopic toTopic_inj .topic 1 w w' ht,
+    expList_congr bech toWriter toWriter_inj .writer 2 w w' hw, expList_congr bech toRecord toRecord_inj .record 3 w w' hr]
+
+/-- … and for every world reachable from the empty store by messages with `/`-free topic names -/
+theorem reachable_genesis_roundtrip_reexport (hc : (toCodec bech).Lawful) (ops : List (Int × GMsg))
+    (ht : ∀ op ∈ ops, CompKey.slash ∉ op.2.toModel.topic) :
+    ∃ g w', aol.ExportGenesis bech (genRun bech ({} : World) ops) = P.ok (some g, genRun bech ({} : World) ops) ∧
+      aol.InitGenesis bech g ({} : World) = P.ok w' ∧ WF w' ∧ abs w' = abs (genRun bech ({} : World) ops) ∧
+      aol.ExportGenesis bech w' = P.ok (some g, w') := by
+  obtain ⟨habs, hwf⟩ := genRun_abs bech ops ({} : World) AolGenesis.wf_empty
+  have hinv : Aol.KeysInv (abs (genRun bech ({} : World) ops)) := by
+    rw [habs, AolGenesis.abs_empty]
+    apply Aol.keysInv_run (toCodec bech) hc
+    · intro op hop
+      obtain ⟨op0, h0, rfl⟩ := List.mem_map.mp hop
+      exact ht op0 h0
+    · exact Aol.keysInv_empty
+  exact genesis_roundtrip_reexport bech hc _ hwf
+    (admittedAt_of_keys toOwner .owner 0 _ hinv.owners) (admittedAt_of_keys toTopic .topic 1 _ hinv.topics)
+    (admittedAt_of_keys toWriter .writer 2 _ hinv.writers) (admittedAt_of_keys toRecord .record 3 _ hinv.records)
+
 end
 end Panacea.Refine.AolExport
